@@ -62,6 +62,20 @@ Theorem C02_getitem_by_data_id : forall t, WF t -> forall e fb n, idx_has e (idx
 Proof. exact getitem_did_exact. Qed.
 Print Assumptions C02_getitem_by_data_id.
 
+Theorem C02_getitem_unique_or_ambiguous : forall t e fb, WF t -> idx_has e (idx t) = true ->
+  (exists n, lk_getitem t (LDid e fb) = Ok [n] /\ nodes_with (forest_of t) e = [n]) \/
+  (lk_getitem t (LDid e fb) = Err EAmbiguous /\ 2 <= length (nodes_with (forest_of t) e)).
+Proof. exact getitem_did_class. Qed.
+Print Assumptions C02_getitem_unique_or_ambiguous.
+
+(* get_clones = find_all(own data_id) without the node itself; is_clone = "more than one" *)
+Theorem C02_get_clones_list : forall t n d, did_of n (forest_of t) = Some d ->
+  lk_get_clones t n false = remove Nat.eq_dec n (lk_find_all_did t d) /\
+  lk_get_clones t n true = lk_find_all_did t d /\
+  lk_is_clone t n = Nat.ltb 1 (length (lk_find_all_did t d)).
+Proof. exact get_clones_as_remove. Qed.
+Print Assumptions C02_get_clones_list.
+
 Theorem C02_get_clones : forall t, WF t -> forall n add_self c,
   In c (lk_get_clones t n add_self) <->
   In n (ids (forest_of t)) /\ In c (ids (forest_of t)) /\ did_of c (forest_of t) = did_of n (forest_of t) /\
